@@ -28,6 +28,39 @@ type Point struct {
 	Obs   map[string]*proto.Obs // key: variant name + "/" + mode key
 	Hang  map[string]bool
 	Died  map[string]string
+	// Diverged: variant -> CPU seconds the worker burnt on this point before the watchdog
+	// fired (see lab.Outcome.Diverged)
+	Diverged map[string]float64
+}
+
+// divergence turns the CPU-time observations of a point into mismatches. The reference
+// interpreter has no memo table and decided the point within its step budget, which bounds the
+// work of a correct parser; a process that burns lab.DivergeCPU seconds of its own CPU time
+// on it (independent of machine load) is not slow, it does not terminate.
+func divergence(pt *Point) []Mismatch {
+	var ms []Mismatch
+	for _, v := range sortedKeysF(pt.Diverged) {
+		ms = append(ms, Mismatch{Variant: v, Mode: memoMode, Shape: "",
+			What: fmt.Sprintf("parser does not terminate: the worker burnt %.0f s of CPU time on an input of %d runes that PEG semantics decide in %d steps (%s)",
+				pt.Diverged[v], len(pt.Runes), pt.Ref.Stats.Steps, pt.refSummary())})
+	}
+	return ms
+}
+
+func sortedKeysF(m map[string]float64) []string {
+	var ks []string
+	for k := range m {
+		ks = append(ks, k)
+	}
+	sort.Strings(ks)
+	return ks
+}
+
+func (pt *Point) refSummary() string {
+	if pt.Ref.OK {
+		return fmt.Sprintf("accept, end=%d", pt.Ref.End)
+	}
+	return "reject"
 }
 
 func modeKey(m proto.Mode) string {
@@ -184,6 +217,11 @@ func runPoints(c *drv.Ctx, lp *LabProp, l *lab.Lab, pts []*Point) {
 			switch {
 			case o.BadResp != "":
 				drv.Inconclusive("a worker response could not be decoded (harness problem): %s", o.BadResp)
+			case o.Diverged > 0:
+				if r.pt.Diverged == nil {
+					r.pt.Diverged = map[string]float64{}
+				}
+				r.pt.Diverged[r.v.Name] = o.Diverged
 			case o.Hang:
 				r.pt.Hang[key] = true
 			case o.Died != "":
@@ -320,7 +358,7 @@ func runLabProp(c *drv.Ctx, lp *LabProp) error {
 			for range pt.Died {
 				died++
 			}
-			ms := lp.Judge(c, pt, l)
+			ms := append(divergence(pt), lp.Judge(c, pt, l)...)
 			if len(pt.Obs) > 0 && len(pt.Input) < 200 {
 				c.Stats.Fallback(pt.sample(nil))
 			}
@@ -452,7 +490,7 @@ func evalLabCases(c *drv.Ctx, lp *LabProp, cands []*LabReplay) [][]Mismatch {
 		if pt.Ref.Budget {
 			continue
 		}
-		out[i] = lp.Judge(c, pt, l)
+		out[i] = append(divergence(pt), lp.Judge(c, pt, l)...)
 	}
 	return out
 }
